@@ -422,9 +422,12 @@ pub fn spec(check: &str, tier: &str) -> Option<CheckSpec> {
         }
         "C14" => {
             let (mut progs, mut level) = asc_programs(tier);
-            for (pr, l) in [lit_programs(tier), lock_programs(tier), wait_programs(tier), chan_programs(tier)] {
-                progs.extend(pr);
-                level = format!("{}; {}", level, l);
+            for (i, (pr, l)) in [lit_programs(tier), lock_programs(tier), wait_programs(tier), chan_programs(tier)].into_iter().enumerate() {
+                // quick: every third program of the two large families (LIT, WAIT); the oracle is
+                // about the shape of the decision tree, which neighbouring programs share
+                let step = if tier == "quick" && (i == 0 || i == 2) { 3 } else { 1 };
+                progs.extend(pr.into_iter().step_by(step));
+                level = format!("{}; {}{}", level, l, if step > 1 { " (every third program)" } else { "" });
             }
             // only loops that terminate in every execution (C14 is about programs whose threads terminate)
             progs.extend(fam::spin_programs(tier).into_iter().filter(|p| !p.text().contains("==77") && !p.name.starts_with("S35")));
@@ -555,6 +558,7 @@ pub fn arc_programs(tier: &str, with_forget: bool) -> (Vec<Program>, String) {
         v.extend(fam::arc_family(1, 2, 2, 4, true, with_forget, false));
         v.extend(fam::arc_family(2, 2, 1, 4, false, with_forget, false));
         v.extend(fam::arc_family(1, 2, 1, 3, false, false, true));
+        v.extend(fam::arc_family(3, 1, 1, 4, false, with_forget, false));
         v.extend(fam::arc_cell_children_only(2));
         v.extend(fam::arc_cell_children_only(3));
         level = "ARC: 1 child x <=2 ops + main <=2 (raw ops); 2 children <=4 ops; cell-in-Drop variant, also with 2-3 children as the only owners".to_string();
@@ -579,7 +583,8 @@ pub fn lock_programs(tier: &str) -> (Vec<Program>, String) {
         v.extend(fam::lock_family(1, 0, 3, 3, 7, true, true));
         v.extend(fam::lock_family(0, 1, 2, 4, 8, true, true));
         v.extend(fam::lock_family(0, 1, 3, 2, 6, true, false));
-        level = "LOCK: 2 mutexes 2 threads x <=4 ops; mutex+rwlock 2 threads x <=3 ops; 1 rwlock 2 threads x <=4 ops, 3 threads x 2 ops; 1 mutex 3 threads <=7 ops; + sentinels".to_string();
+        v.extend(fam::lock_family(2, 0, 3, 2, 6, true, false));
+        level = "LOCK: 2 mutexes 3 threads x 2 ops; 2 mutexes 2 threads x <=4 ops; mutex+rwlock 2 threads x <=3 ops; 1 rwlock 2 threads x <=4 ops, 3 threads x 2 ops; 1 mutex 3 threads <=7 ops; + sentinels".to_string();
     } else {
         v.extend(fam::lock_family(2, 0, 2, 5, 10, true, true));
         v.extend(fam::lock_family(1, 1, 2, 4, 8, true, true));
@@ -597,7 +602,8 @@ pub fn wait_programs(tier: &str) -> (Vec<Program>, String) {
     if tier == "quick" {
         v.extend(fam::wait_family(2, 1, 1, 12, true, true, true));
         v.extend(fam::wait_family(1, 2, 2, 12, true, true, true));
-        level = "WAIT: 2 children x 1 block + main <=1 block; 1 child x <=2 blocks + main <=2 blocks (condvar, Notify, park/unpark)".to_string();
+        v.extend(fam::wait_family(3, 1, 0, 12, true, true, true));
+        level = "WAIT: 2 children x 1 block + main <=1 block; 1 child x <=2 blocks + main <=2 blocks; 3 children x 1 block (condvar, Notify, park/unpark)".to_string();
     } else {
         v.extend(fam::wait_family(2, 2, 1, 14, true, true, true));
         v.extend(fam::wait_family(3, 1, 1, 14, true, true, true));
@@ -614,7 +620,8 @@ pub fn chan_programs(tier: &str) -> (Vec<Program>, String) {
     if tier == "quick" {
         v.extend(fam::chan_family(1, 2, 3, true));
         v.extend(fam::chan_family(2, 2, 3, true));
-        level = "CHAN: 1-2 senders x <=2 sends, receiver <=3 recv/try_recv (+drop); messages with a loom RMW in Drop".to_string();
+        v.extend(fam::chan_family(3, 1, 2, true));
+        level = "CHAN: 3 senders x 1 send; 1-2 senders x <=2 sends, receiver <=3 recv/try_recv (+drop); messages with a loom RMW in Drop".to_string();
     } else {
         v.extend(fam::chan_family(1, 3, 4, true));
         v.extend(fam::chan_family(2, 2, 4, true));
